@@ -91,7 +91,9 @@ def realise(feat: Dict[str, bool], root: Path) -> List[str]:
     (pk / "mod.py").write_text("\n".join(mod) + "\n")
     # import cycle: cyca is analysed first and imports cycb before CBase exists
     (pk / "cyca.py").write_text(
-        '"""Module cyca."""\nfrom pk.cycb import Impl\n'
+        '"""Module cyca.\n\nOther notes\n===========\n\nSee `Other notes`_, `RST markup`_ and `rst-cheatsheet`_.\n\n'
+        'RST markup\n==========\n\nText.\n\n.. _rst-cheatsheet:\n\nThe cheat sheet.\n"""\n'
+        '__docformat__ = "restructuredtext"\nfrom pk.cycb import Impl\n'
         'class CBase:\n    """Class CBase."""\n    def run(self):\n        """Method run."""\n'
         '    def keep(self):\n        """Method keep."""\n'
         '    @property\n    def side(self):\n        """Property side."""\n'
@@ -133,7 +135,7 @@ EXTRA_PROJECTS: Dict[str, Dict[str, str]] = {
                                         '    def f(self):\n        """First f."""\n    def f(self):\n        """Second f."""\n'},
     # a module whose docstring has section titles, listed (expandable) in the sidebar of its package
     "sectioned-docstring": {"pkg/__init__.py": '"""Package."""\n',
-                            "pkg/mod.py": '"""\nModule with sections.\n\nSection One\n===========\n\nText one.\n\nSection Two\n===========\n\nText two.\n"""\n'
+                            "pkg/mod.py": '"""\nModule with sections, see `Section Two`_.\n\nSection One\n===========\n\nText one [1]_.\n\nSection Two\n===========\n\nText two.\n\n.. [1] A footnote.\n"""\n'
                                           '__docformat__ = "restructuredtext"\ndef f():\n    """Function f."""\n'},
 }
 EXTRA_PROJECTS["main-module"] = {"pkg/__init__.py": '"""Package."""\n',
@@ -318,6 +320,7 @@ def to_case(res: Dict[str, Any]) -> Dict[str, Any]:
 
 # --------------------------------------------------------- the verdict: Python twin of Site.tla section 4 + 5
 MARKED_KINDS = ("table", "detail", "sidebar", "moduleIndex", "nameIndex")
+CORE_KINDS = ("table", "detail", "sidebar", "moduleIndex")
 ALLOBJECTS_PRODS = ("nameIndex", "undocced", "classIndex", "searchDoc")
 HIERARCHY_PRODS = ("classSignature", "baseName", "baseTable", "sidebarItem", "subclasses", "overrides", "overridesNote", "overriddenIn")
 TAGLINK_PRODS = ("classSignature", "annotation", "docstring", "memberDoc", "summaryDoc", "overrides", "baseName", "extras")
@@ -409,6 +412,10 @@ class View:
             return "sidebar-names-hidden-origin-module"
         if prod == "tocBackref" and f == page and g != "":
             return "toc-backref-stale-id"
+        if prod == "fnBackref" and f == page and g != "":
+            return "footnote-backref-unprefixed"
+        if prod == "summaryLocalRef" and f == page and g != "":
+            return "summary-local-reference-copied"
         if prod in ALLOBJECTS_PRODS and (f, g) in self.superseded_urls:
             return "superseded-duplicate-listed"
         if prod == "memberDoc" and f == page and g != "" and member in self.o and self.o[member]["docsrc"] != member:
@@ -474,6 +481,13 @@ def verdict(case: Dict[str, Any]) -> Dict[str, Set[Tuple[Any, ...]]]:
                      ("searchindex", set(s["search"])), ("fullsearchindex", set(s["fsearch"]))):
         for i in v.hid_ids & coll:
             h.add((nm, "", i, "", "", tk(i, "", "none")))
+    marked = {(e["file"], e["frag"]) for e in s["entries"] if e["kind"] in CORE_KINDS and e["private"]}
+    for e in s["entries"]:           # the listings must tell the same story about one object, whatever the System says
+        if e["kind"] in CORE_KINDS and not e["private"] and (e["file"], e["frag"]) in marked:
+            out["PrivateMarked"].add((e["page"], e["kind"], e["file"], e["frag"]))
+    for d in s["docs"]:
+        if d["privacy"] != "PRIVATE" and (d["file"], d["frag"]) in marked:
+            out["PrivateMarked"].add(("all-documents", "searchDoc", d["file"], d["frag"]))
     for e in s["entries"]:
         if not e["private"] and ((e["kind"] in MARKED_KINDS and (e["file"], e["frag"]) in v.priv_urls)
                                  or (e["kind"] == "classIndex" and (e["file"], e["frag"]) in v.class_node_urls)):
@@ -515,6 +529,10 @@ def _facts_class(w: Dict[str, Any]) -> str:
         return "sidebar-names-hidden-origin-module"
     if prod == "tocBackref" and inst.get("file") == inst.get("page") and inst.get("frag"):
         return "toc-backref-stale-id"
+    if prod == "fnBackref" and inst.get("file") == inst.get("page") and inst.get("frag"):
+        return "footnote-backref-unprefixed"
+    if prod == "summaryLocalRef" and inst.get("file") == inst.get("page") and inst.get("frag"):
+        return "summary-local-reference-copied"
     if prod in ALLOBJECTS_PRODS and f.get("target_superseded"):
         return "superseded-duplicate-listed"
     if prod == "memberDoc" and inst.get("file") == inst.get("page") and inst.get("frag") and f.get("member_doc_inherited"):
@@ -540,6 +558,14 @@ def kf_superseded_duplicate_not_rendered(w: Dict[str, Any]) -> bool:
 
 def kf_toc_backref_stale_id(w: Dict[str, Any]) -> bool:
     return w.get("invariant") == "LinksResolve" and _facts_class(w) == "toc-backref-stale-id"
+
+
+def kf_footnote_backref_unprefixed(w: Dict[str, Any]) -> bool:
+    return w.get("invariant") == "LinksResolve" and _facts_class(w) == "footnote-backref-unprefixed"
+
+
+def kf_summary_local_reference_copied(w: Dict[str, Any]) -> bool:
+    return w.get("invariant") == "LinksResolve" and _facts_class(w) == "summary-local-reference-copied"
 
 
 def kf_percent_encoded_page_filename(w: Dict[str, Any]) -> bool:
@@ -755,6 +781,8 @@ def run_property(ctx: Ctx, prop: str) -> int:
         ctx.register_matcher("superseded-duplicate-not-rendered", kf_superseded_duplicate_not_rendered)
         ctx.register_matcher("percent-encoded-page-filename", kf_percent_encoded_page_filename)
         ctx.register_matcher("toc-backref-stale-id", kf_toc_backref_stale_id)
+        ctx.register_matcher("footnote-backref-unprefixed", kf_footnote_backref_unprefixed)
+        ctx.register_matcher("summary-local-reference-copied", kf_summary_local_reference_copied)
         ctx.register_matcher("inherited-docstring-samepage-link", kf_inherited_docstring_link)
         ctx.register_matcher("dead-link-to-hidden-object", kf_dead_link_to_hidden)
         ctx.register_matcher("dead-link-hidden-root", kf_dead_link_hidden_root)
